@@ -305,9 +305,8 @@ def oracle(ctx, sc, rec, balances, prices, rep):
                     v(f"trade-crash.{o['out']}", f"{t} at minute {now} raised {o['out']}")
         # ---- settlement
         pre, post = bar["pre"], bar["post"]
-        if L.has_nan(pre["book"]) or L.has_nan(post["cash"]):
-            v("book-rows-without-data", f"minute {now}: the book of the bar has rows that carry no data (NaN); a bar without option data has no rows")
-            continue
+        if L.has_nan(pre["book"]):
+            ctx.count("bars_whose_book_has_nan_rows")        # judged through what follows from it: settlement, trades, (C01) the reported value
         due = [p for p in pre["positions"] if on_grid and p["expiry"] <= now]
         keep = [p for p in pre["positions"] if not (on_grid and p["expiry"] <= now)]
         post_keys = [p["key"] for p in post["positions"]]
@@ -465,6 +464,28 @@ def directed():
     return out
 
 
+def coarse_gap():
+    """interval 2h / 4h, a whole coarse bar without option data inside the life of the instrument, an in-the-money call that expires in the gap:
+    it settles at the first on-grid bar at or after expiry -- the gap bar -- against the token price (the row is absent there)"""
+    out = []
+    for interval, n_hours, gap in (("2h", 8, (4, 5)), ("4h", 13, (4, 5, 6, 7)), ("2h", 8, (2, 3))):
+        strike = 1900
+        name = "ETH-G-1900-C"
+        expiry = 60 * gap[0] + 30 if interval == "2h" else 60 * gap[0]
+        hours = []
+        for h in range(n_hours):
+            rows = []
+            if h not in gap:
+                rows.append({"name": name, "state": "open", "kind": "CALL", "strike": strike, "expiry": expiry, "mark": 0.08, "underlying": 2060.0,
+                             "delta": 0.5, "gamma": 0.001, "asks": [[0.085, 50]], "bids": [[0.075, 50]]})
+            hours.append((60 * h, rows))
+        ins = {"name": name, "kind": "CALL", "strike": strike, "expiry": expiry, "exp_cls": "directed-gap", "gone": False, "path": [(2060.0, 0.08)] * n_hours}
+        out.append({"interval": interval, "n_hours": n_hours, "tick": 200000, "instrs": [ins], "hours": hours,
+                    "positions": [{"name": name, "expiry": expiry, "strike": strike, "kind": "CALL", "amount": "3"}],
+                    "script": {0: [{"type": "buy", "name": name, "amount": 2}]}, "cash": "5", "wallet": "10"})
+    return out
+
+
 def first_hour_missing():
     """the option frame has no rows for the hour of the first bar (files of that hour not collected)"""
     sc = directed()[0]
@@ -476,7 +497,7 @@ def first_hour_missing():
 
 def run(ctx: Ctx):
     reqs = []
-    scs = (directed() + [first_hour_missing()]) if not ctx.search else []
+    scs = (directed() + coarse_gap() + [first_hour_missing()]) if not ctx.search else []
     n = ctx.scale(26, 800)
     for _ in range(n):
         scs.append(gen_scenario(ctx.rng))
